@@ -25,6 +25,7 @@
 -/
 import Cog.Sem.GoDeclLemmas8
 import Cog.Sem.GoDeclPlaceholder
+import Cog.Sem.PyDeclLemmas4
 namespace Cog.C02
 open Cog.IR Cog.Sem.GoDecl
 
@@ -176,5 +177,113 @@ example : GoPrintable W.kb02 = false ∧ GoPrintable W.kb04 = false ∧ GoPrinta
     hypotheses (and, by the theorem, is accepted; evaluated here as well) -/
 example : GoPrintable W.good = true ∧ wfNames W.good = true ∧ wellTyped (emitEnv {} W.good) = true ∧ placeholderShape W.good = false := by
   decide +kernel
+
+end Cog.C02
+
+/-! ## Python: the class-declaration fragment
+
+  What internal/jennies/python/{rawtypes,types,tools,imports}.go print from Go code for `models/<pkg>.py`:
+  the import block, `class X:` / `class X(enum.StrEnum):`, docstrings and comments, annotated members, enum
+  members, module-level aliases (`X: typing.TypeAlias = …`) and constants, and `__init__` (signature with
+  annotations and `= default`, the assignments).  `pyDeclRender` (Cog/Sem/PyDecl.lean) transcribes those
+  printers into an abstract syntax, `renderModule` prints it, `pyDeclCheck` (Cog/Sem/PyDeclCheck.lean) is a
+  decidable well-formedness checker that follows what CPython does when it compiles and imports such a module.
+  Tie (stream `c02-pydecl`, every run): with the marshaller off the emitted file IS that fragment; the model's
+  text must equal it byte for byte and the checker's verdict must equal CPython's (compile + fresh import).
+  `xstrings.ToSnakeCase` is a parameter (`Cfg.snake`): the theorem holds for every such function.
+  `to_json` / `from_json` and the custom template blocks are not in the fragment.
+-/
+namespace Cog.C02
+open Cog.IR Cog.Sem.PyDecl
+
+/-- PROVED, for every schema set, every schema in it and every snake-case function: in the normal form the
+    Python printers handle (`PyPrintable`) and with identifiers valid and unique after cog's own escaping
+    (`wfNamesPy`), the printers finish and the fragment checker accepts the module: identifiers in binding
+    position, distinct parameters, every annotation / default / alias right-hand side evaluates at import
+    time (builtins, `typing` / `enum` attributes, quoted forward references, names declared by existing
+    sibling modules that the import block binds), enum members fit their `StrEnum` / `IntEnum`, literals are
+    Python literals, no placeholder, a body after every `def`. -/
+theorem C02_py_declarations_wellformed_partial (cfg : Cfg) (ss : Schemas) (s : Schema) :
+    PyPrintable cfg ss s = true → wfNamesPy cfg s = true →
+    ∃ m, pyDeclRender cfg ss s = .ok m ∧ pyDeclCheck ss m = true :=
+  pyDecl_wellformed cfg ss s
+
+/-- the type formatter alone, by structural induction over `Ty`: every printable type is formatted to an
+    annotation that evaluates at import time -/
+theorem C02_py_annotations_evaluate (ss : Schemas) (cur : String) (hc : cur ≠ "typing") (t : Ty) :
+    tyOk ss cur t = true → evalOk ss (fmtTy ss cur t) = true :=
+  evalOk_fmtTy ss cur hc t
+
+/-- the import block computed by the model binds every alias the declarations use -/
+theorem C02_py_imports_cover (ss : Schemas) (pkg : String) (ds : List PyDecl)
+    (h : ∀ a ∈ declsAliases ds, aliasOk ss a = true) :
+    importsCover { pkg := pkg, imports := importsOf (declsAliases ds) [], decls := ds } = true :=
+  (imports_ok ss pkg ds h).2
+
+/-- the full statement: whatever the printers print without failing is well formed -/
+def C02_py_full : Prop :=
+  ∀ (cfg : Cfg) (ss : Schemas) (s : Schema) (m : PyModule), pyDeclRender cfg ss s = .ok m → pyDeclCheck ss m = true
+
+namespace PyW
+def str : Ty := .scalar "string" .nil [] {}
+def mkSchema (pkg : String) (os : List Obj) : Schema := { pkg := pkg, objects := os.map fun o => (o.name, o) }
+def obj (pkg name : String) (t : Ty) : Obj := { name := name, ty := t, selfPkg := pkg, selfName := name }
+def fld (n : String) (t : Ty) (req : Bool := true) : Field := { name := n, ty := t, required := req }
+
+/-- identity as snake-case function: the witnesses below use names that ToSnakeCase leaves alone -/
+def idCfg : Cfg := { snake := fun s => s }
+/-- ASCII lower-casing: what ToSnakeCase does to a single capitalised word -/
+def lowerCfg : Cfg := { snake := fun s => String.ofList (s.toList.map Char.toLower) }
+
+/-- fields `a` and `_a`: formatIdentifier trims the underscore, `__init__` gets the parameter `a` twice -/
+def collide : Schema := mkSchema "pinunderscore" [obj "pinunderscore" "T" (.struct [fld "a" str, fld "_a" str] [] none {})]
+/-- field `Class`: not a keyword when escapeIdentifier looks, `class` after SnakeCase -/
+def keyword : Schema := mkSchema "pinkeyword" [obj "pinkeyword" "T" (.struct [fld "Class" str] [] none {})]
+/-- struct without fields: `def __init__(self, ):` without a body -/
+def empty : Schema := mkSchema "pinempty" [obj "pinempty" "T" (.struct [] [] none {})]
+/-- a healthy module: scalar, self reference (quoted, nullable), list, enum object, alias, constant, union, map -/
+def healthy : Schema := mkSchema "pinhealthy" [
+  obj "pinhealthy" "T" (.struct [fld "name" str, fld "next_val" (.ref "pinhealthy" "T" { nullable := true }) false,
+    fld "tags" (.array str {}), fld "kind" (.ref "pinhealthy" "E" {}),
+    fld "u" (.disj [str, .scalar "int64" .nil [] {}] {} {}), fld "m" (.map str (.ref "pinhealthy" "T" {}) {}),
+    fld "c" (.scalar "string" (.str "x") [] {})] [] none {}),
+  obj "pinhealthy" "E" (.enum [{ name := "A", value := .str "a", kind := "string" }, { name := "B", value := .str "b", kind := "string" }] {}),
+  obj "pinhealthy" "Names" (.array str {}),
+  obj "pinhealthy" "Version" (.scalar "int64" (.int "i64" 3) [] {})]
+
+def rejected (cfg : Cfg) (s : Schema) : Bool :=
+  match pyDeclRender cfg [s] s with
+  | .ok m => !pyDeclCheck [s] m
+  | _ => false
+
+theorem rejected_sound {cfg : Cfg} {s : Schema} (h : rejected cfg s = true) : ¬ C02_py_full := by
+  intro hall
+  unfold rejected at h
+  cases hr : pyDeclRender cfg [s] s with
+  | ok m => rw [hr] at h; have := hall cfg [s] s m hr; simp [this] at h
+  | err e => rw [hr] at h; cases h
+  | panic p => rw [hr] at h; cases h
+end PyW
+
+/-- `a` / `_a`: duplicate argument (replayed on the real code: stream c02-pydecl, pinned `pinunderscore`) -/
+theorem C02_py_full_counterexample : ¬ C02_py_full := PyW.rejected_sound (cfg := PyW.idCfg) (s := PyW.collide) (by decide +kernel)
+/-- the collision does not depend on the snake-case function: formatIdentifier maps `_a` and `a` to the same text -/
+theorem C02_py_trim_collision (cfg : Cfg) : fmtIdent cfg "_a" = fmtIdent cfg "a" := by
+  have h1 : trimLeftDU "_a" = "a" := by decide +kernel
+  have h2 : trimLeftDU "a" = "a" := by decide +kernel
+  simp [fmtIdent, h1, h2]
+/-- `Class` → `class`: keyword after snake-casing (pinned `pinkeyword`) -/
+theorem C02_py_counterexample_keyword : PyW.rejected PyW.lowerCfg PyW.keyword = true := by decide +kernel
+/-- struct without fields: `__init__` without a body (pinned `pinempty`) -/
+theorem C02_py_counterexample_empty_struct : PyW.rejected PyW.idCfg PyW.empty = true := by decide +kernel
+
+/-- which hypothesis excludes which witness -/
+example : wfNamesPy PyW.idCfg PyW.collide = false ∧ wfNamesPy PyW.lowerCfg PyW.keyword = false
+    ∧ PyPrintable PyW.idCfg [PyW.empty] PyW.empty = false := by decide +kernel
+
+/-- non-vacuity of `C02_py_declarations_wellformed_partial`: a module with every supported shape satisfies the
+    hypotheses (and is accepted; evaluated here as well) -/
+example : PyPrintable PyW.idCfg [PyW.healthy] PyW.healthy = true ∧ wfNamesPy PyW.idCfg PyW.healthy = true
+    ∧ PyW.rejected PyW.idCfg PyW.healthy = false := by decide +kernel
 
 end Cog.C02
